@@ -9,7 +9,7 @@ Model of the C type-string parser, src/c/parse_c_type.c (C07, C08).
     character is a one-character token.  It is written as a character
     automaton (`step`) so that it is structurally recursive; the automaton
     emits exactly the tokens the C loop finds (`...` needs three dots, one or
-    two dots are one-character tokens).  The input ends at the first NUL.
+    two dots are one-character tokens).
   * `parseComplete` / `parseSequel` = `parse_complete` (605) / `parse_sequel`
     (227).  The C code writes opcodes with back-patching; the model returns the
     declarator as data (`Decl`: stars, optional grouping parentheses, suffixes)
@@ -117,8 +117,9 @@ def run : LexSt → Str → List Tok
   | st, [] => flush st
   | st, c :: cs => (step st c).1 ++ run (step st c).2 cs
 
-/-- All tokens of a C string (up to TOK_END). -/
-def tokenize (s : Str) : List Tok := run .idle (s.takeWhile (· ≠ '\x00'))
+/-- All tokens of a C string (up to TOK_END).  The argument is the text before the
+terminating NUL (strings with an embedded NUL are cut there by the caller). -/
+def tokenize (s : Str) : List Tok := run .idle s
 
 /-! ### Numbers: `strtoull(tok->p, &endptr, 0)` and `endptr == p + size` -/
 
@@ -183,7 +184,8 @@ conventions and the optional name are dropped), optionally one pair of
 grouping parentheses with an inner declarator, then function and array
 suffixes in textual order. -/
 inductive Decl where
-  | mk (stars : Nat) (group : Option Decl) (sfx : List Suffix)
+  | flat (stars : Nat) (sfx : List Suffix)
+  | group (stars : Nat) (g : Decl) (sfx : List Suffix)
   deriving Repr, Inhabited
 
 def ptrN : Nat → Ty → Ty
@@ -198,8 +200,8 @@ def applySfx : List Suffix → Ty → Ty
 
 /-- The type the opcodes written by `parse_sequel(tok, outer)` denote. -/
 def Decl.apply : Decl → Ty → Ty
-  | .mk stars none sfx, base => applySfx sfx (ptrN stars base)
-  | .mk stars (some g) sfx, base => g.apply (applySfx sfx (ptrN stars base))
+  | .flat stars sfx, base => applySfx sfx (ptrN stars base)
+  | .group stars g sfx, base => g.apply (applySfx sfx (ptrN stars base))
 
 /-- Kind of the opcode at the entry index returned by `parse_sequel`. -/
 inductive Entry where
@@ -208,10 +210,10 @@ inductive Entry where
   deriving DecidableEq, Repr
 
 def Decl.entry : Decl → Entry
-  | .mk stars none [] => if stars = 0 then .outer else .pointer
-  | .mk _ none (.arr _ :: _) => .array
-  | .mk _ none (.fn _ _ :: _) => .function
-  | .mk _ (some g) _ =>
+  | .flat stars [] => if stars = 0 then .outer else .pointer
+  | .flat _ (.arr _ :: _) => .array
+  | .flat _ (.fn _ _ :: _) => .function
+  | .group _ g _ =>
       match g.entry with
       | .outer => .noop       -- the OP_NOOP written for the parentheses
       | e => e
@@ -226,6 +228,11 @@ def header : List Tok → Nat → Bool → Nat × Bool × List Tok
   | .kw .cdecl_ :: r, n, _ => header r n true
   | .kw .stdcall_ :: r, n, _ => header r n true
   | ts, n, abi => (n, abi, ts)
+
+/-- `if (tok->kind == TOK_IDENTIFIER) next_token(tok)`: "skip a potential variable name". -/
+def skipName : List Tok → Bool × List Tok
+  | .ident _ :: r => (true, r)
+  | ts => (false, ts)
 
 /-- `if (tok->kind == TOK_CDECL || tok->kind == TOK_STDCALL)` right after `(`. -/
 def absorbAbi (abi : Bool) : List Tok → Bool × List Tok
@@ -363,14 +370,14 @@ def parseSequel (ctx : Ctx) : Nat → List Tok → Except Err (Decl × List Tok)
   | 0, _ => .error .fuel
   | f + 1, ts => do
       let (stars, abi, r) := header ts 0 false
-      let (named, r) := match r with
-        | .ident _ :: r' => (true, r')       -- "skip a potential variable name"
-        | _ => (false, r)
+      let (named, r) := skipName r
       let (g, fns, abi, r) ← parens ctx f (!named) abi r
       if abi then .error .parse               -- "expected '('"
       else do
         let (arrs, r) ← arrays ctx r
-        pure (.mk stars g (fns ++ arrs), r)
+        match g with
+        | none => pure (.flat stars (fns ++ arrs), r)
+        | some g => pure (.group stars g (fns ++ arrs), r)
 
 /-- The `while (tok->kind == TOK_OPEN_PAREN)` loop; `canGroup` is
 `check_for_grouping == 1`. -/
@@ -446,21 +453,40 @@ def sized (ctx : Ctx) : Ty → Bool
   | .arr _ len => len.isSome
   | .func _ _ _ => false
 
+/-- `fb_fill_type` raises NotImplementedError (which `new_function_type` swallows)
+for complete unions and complex primitives. -/
+def cifUnsupported : Ty → Bool
+  | .agg .union _ => true
+  | .prim n => n = "_cffi_float_complex_t".toList || n = "_cffi_double_complex_t".toList
+  | _ => false
+
+/-- The argument loop of `fb_build` for a non-variadic function: arrays decay, an
+argument without a positive size is a TypeError, the first unsupported one ends the
+preparation of the cif without an error. -/
+def cifArgs (ctx : Ctx) : List Ty → Bool
+  | [] => true
+  | a :: as =>
+      if a.isArr then cifArgs ctx as
+      else if !sized ctx a then false
+      else if cifUnsupported a then true
+      else cifArgs ctx as
+
 mutual
 /-- The backend builds a ctype for `t` (`t` is not a raw function type). -/
 def valid (ctx : Ctx) : Ty → Bool
   | .prim _ => true
   | .agg _ _ => true
   | .ptr (.func args res ell) =>
-      valid ctx res && !res.isFunc && !res.isArr && (sized ctx res || isVoid res) && validArgs ctx args ell
+      valid ctx res && !res.isFunc && !res.isArr && (sized ctx res || isVoid res) && validArgs ctx args &&
+        (ell || cifUnsupported res || cifArgs ctx args)
   | .ptr t => valid ctx t
   | .arr t _ => valid ctx t && sized ctx t
   | .func _ _ _ => false
 
-def validArgs (ctx : Ctx) : List Ty → Bool → Bool
-  | [], _ => true
-  | a :: as, ell =>
-      valid ctx a && (ell || a.isArr || sized ctx a) && validArgs ctx as ell
+/-- every parameter type is built (`realize_c_type`, which refuses raw function types) -/
+def validArgs (ctx : Ctx) : List Ty → Bool
+  | [] => true
+  | a :: as => valid ctx a && validArgs ctx as
 end
 
 /-- `ffi.typeof(string)` of a compiled / out-of-line FFI: `_ffi_type`
